@@ -182,9 +182,22 @@ func CtxWithCancel(parent context.Context) (context.Context, context.CancelFunc)
 	return c, c.cancel
 }
 
+// Timeouts never fire by themselves (no clock); a harness may let every deadline
+// armed so far elapse at a point of its choosing with ExpireTimeouts.
+var ctxTimed []*Ctx
+
+// ExpireTimeouts: every context created by WithTimeout / WithDeadline so far is done.
+func ExpireTimeouts() {
+	for _, c := range ctxTimed {
+		c.cancel()
+	}
+	ctxTimed = nil
+}
+
 //verif:stub context.WithTimeout
 func CtxWithTimeout(parent context.Context, _ time.Duration) (context.Context, context.CancelFunc) {
 	c := ctxDerive(parent, &Ctx{Parent: parent})
+	ctxTimed = append(ctxTimed, c)
 	return c, c.cancel
 }
 
